@@ -155,14 +155,15 @@ Print Assumptions C19_safe_native_preserves_reachable.
 
 (* sensitivity: with the purity fact of System#intersection false (what the analysis reports when the ShallowClone of its
    first argument is dropped) the model lets it write what its arguments reach: `intersection(SbArr, [ 1 ])` in a sandboxed
-   frame changes the cell of the global array, and C19_safe_funcs_harmless is false for those facts; on the current facts
-   the same program changes nothing *)
+   frame changes the cell of the global array, and C19_safe_funcs_harmless is false for those facts; with the purity fact
+   true the same program changes nothing *)
 Theorem C19_impure_native_refuted :
   sb_reach sb_isect_st [SbVObj sb_t_Array (SbShared 1)] = [1%nat] /\
   nth 1 (sbs_shared (snd (sb_eval (sb_facts_impure sb_cur_facts sb_n_intersection) 6 sb_filter_frame sb_isect_prog sb_isect_st))) []
     <> nth 1 (sbs_shared sb_isect_st) [] /\
   sb_safe_funcs_harmless (sb_facts_impure sb_cur_facts sb_n_intersection) = false /\
-  sb_protected (snd (sb_eval sb_cur_facts 6 sb_filter_frame sb_isect_prog sb_isect_st)) = sb_protected sb_isect_st.
+  sb_protected (snd (sb_eval (sb_facts_purity sb_cur_facts sb_n_intersection true) 6 sb_filter_frame sb_isect_prog sb_isect_st))
+    = sb_protected sb_isect_st.
 Proof. exact sb_impure_native_writes_reachable. Qed.
 Print Assumptions C19_impure_native_refuted.
 
